@@ -405,7 +405,43 @@ func webCase(m *monitor, r *vc.Rand) (vc.Val, vc.Val, bool) {
 			}
 		}
 	}
-	return vc.L{3, path + " " + ct, body, decl}, vc.L{class, rec.Code, wellFormed}, status == 0
+	if !wellFormed && class == 0 && rec.Code == 200 && lateDataFrame(rec.Body.Bytes()) {
+		class = 97
+	}
+	out := vc.L{class, rec.Code, wellFormed}
+	if !wellFormed {
+		// diagnostics for the replay: what the response looked like
+		b := rec.Body.Bytes()
+		if len(b) > 600 {
+			b = b[:600]
+		}
+		out = append(out, vc.L{rec.Header().Get("Content-Type"), rec.Header().Get("Grpc-Status"), b})
+	}
+	return vc.L{3, path + " " + ct, body, decl}, out, status == 0
+}
+
+// lateDataFrame: the body is a sequence of whole frames with at most one trailer frame, and its only defect is where the
+// data frames are: behind the trailer, or present while the trailer is not there (yet)
+func lateDataFrame(data []byte) bool {
+	trailerAt, frames := -1, 0
+	for len(data) >= 5 {
+		n := int(binary.BigEndian.Uint32(data[1:5]))
+		if len(data) < 5+n {
+			return false
+		}
+		if data[0]&0x80 != 0 {
+			if trailerAt >= 0 {
+				return false
+			}
+			trailerAt = frames
+		}
+		frames++
+		data = data[5+n:]
+	}
+	if len(data) != 0 || frames == 0 {
+		return false
+	}
+	return trailerAt < frames-1 // no trailer at all (-1), or something behind it
 }
 
 // ---- entries 2 and 4: WebSockets (real TCP, gorilla client, raw frames where malformed ones are wanted) ----
